@@ -94,9 +94,9 @@ def coo_local():
         tol = 'tolocal_Cmove'
     else:
         raise TranslateError('COOData.tolocal: unknown reshape expression: ' + e)
-    facet = ('if basis is not None:\n    out = np.zeros((basis.mesh.nfacets,) + local.shape[1:])\n    out[basis.find] = local\n'
-             '    local = np.sum(out[basis.mesh.t2f], axis=0)')
-    if t2.src(body[2]) != facet or t2.src(body[3]) != 'return local':
+    facet = [('if basis is not None:\n    out = np.zeros((basis.mesh.nfacets,) + local.shape[1:]' + dt + ')\n    out[basis.find] = local\n'
+              '    local = np.sum(out[basis.mesh.t2f], axis=0)') for dt in ('', ', dtype=local.dtype')]
+    if t2.src(body[2]) not in facet or t2.src(body[3]) != 'return local':
         raise TranslateError('COOData.tolocal tail: ' + t2.src(body[2])[:200])
     fl = t2.find_def(tree, 'fromlocal', 'COOData')
     ret = t2.only(_nodoc(fl.body), 'COOData.fromlocal body')
